@@ -422,13 +422,13 @@ def gen_c06(rng, tier):
             q.append(("derva_slice_s %s u16 0x%x 0", r)); q.append(("slice %s 0x%x 1 1", r))
             # the VA twins (same bytes through ImageBase + rva): sentinel arrays that end exactly where the
             # stored bytes end must read the same on the file and on the converted view
-            va = pe.image_base + r
+            va = (pe.image_base + r) & ((1 << pe.bits) - 1)
             q.append(("deref_copy %s u32 0x%x", va)); q.append(("deref_cstr %s 0x%x", va))
             q.append(("deref_slice_s %%s %s 0x%%x 0" % rng.choice(["u8", "u16", "u32", "u64"]), va))
         # sentinel-terminated arrays planted flush against the end of each section's stored bytes
         for s_, w_ in flush:
-            q.append(("deref_slice_s %%s u%d 0x%%x 0" % (8 * w_), pe.image_base + s_.va + s_.rs - 2 * w_))
-            q.append(("derva_slice_s %%s u%d 0x%%x 0" % (8 * w_), s_.va + s_.rs - 2 * w_))
+            q.append(("deref_slice_s %%s u%d 0x%%x 0" % (8 * w_), (pe.image_base + s_.va + s_.rs - 2 * w_) & ((1 << pe.bits) - 1)))
+            q.append(("derva_slice_s %%s u%d 0x%%x 0" % (8 * w_), (s_.va + s_.rs - 2 * w_) & U32))
         case = [img_line(rng, data), "from_bytes " + kf, "to_view " + kf]
         case += [fmt % (kf, r) for fmt, r in q]
         case += ["img_to_view " + kf, "from_bytes " + kv]
